@@ -520,6 +520,88 @@ FAMILIES = [
 OT_ONLY_PARAMS = ["transformation", "lower_bound", "upper_bound", "threshold"]
 
 
+_POWER_ROUTINES = {None: "pow", "math.pow": "pow", "numpy.power": "pow", "numpy.float_power": "pow"}
+
+
+def _arith_normal(func: ast.FunctionDef, imports: dict | None = None) -> ast.FunctionDef:
+    """Copy of a straight-line arithmetic function in the spelling the term domain reads.
+
+    ``pow(a, b)`` (the builtin, ``math.pow``, ``numpy.power``) becomes ``a ** b``; an assignment expression
+    ``(y := e)`` inside a top-level statement becomes the statement ``y = e`` placed before it, the expression reading
+    ``y`` -- only when ``y`` is not read, in that statement, textually before the assignment expression (operands and
+    arguments are evaluated left to right, and the arithmetic has no side effect to reorder).  Anything else is left
+    as it is (and stays not understood by the term domain).
+    """
+    import copy
+
+    imports = imports or {}
+    func = copy.deepcopy(func)
+
+    def is_power(call: ast.Call) -> bool:
+        if call.keywords or len(call.args) != 2 or any(isinstance(a, ast.Starred) for a in call.args):
+            return False
+        name = dotted(call.func)
+        if not name:
+            return False
+        head, _, rest = name.partition(".")
+        if not rest:
+            return name in ("pow", "power", "float_power") and imports.get(name, None if name == "pow" else "?") in _POWER_ROUTINES
+        return imports.get(head) in ("math", "numpy") and rest in ("pow", "power", "float_power")
+
+    class P(ast.NodeTransformer):
+        def visit_Call(self, n):  # noqa: N802
+            self.generic_visit(n)
+            if is_power(n):
+                return ast.copy_location(ast.BinOp(left=n.args[0], op=ast.Pow(), right=n.args[1]), n)
+            return n
+
+    func = P().visit(func)
+
+    def pos(n):
+        return (getattr(n, "lineno", 0), getattr(n, "col_offset", 0))
+
+    def hoist(stmts: list[ast.stmt]) -> list[ast.stmt]:
+        out = []
+        for s in stmts:
+            if isinstance(s, (ast.Assign, ast.Return, ast.Expr)) and s.value is not None:
+                pre: list[ast.stmt] = []
+                whole = copy.deepcopy(s)
+
+                class W(ast.NodeTransformer):
+                    ok = True
+
+                    def visit_NamedExpr(self, n, whole=whole):  # noqa: N802
+                        self.generic_visit(n)  # inner assignment expressions are evaluated first
+                        if not isinstance(n.target, ast.Name):
+                            W.ok = False
+                            return n
+                        early = [x for x in ast.walk(whole.value) if isinstance(x, ast.Name) and x.id == n.target.id and isinstance(x.ctx, ast.Load) and pos(x) < pos(n)]
+                        if early:
+                            W.ok = False
+                            return n
+                        pre.append(ast.copy_location(ast.Assign(targets=[ast.Name(id=n.target.id, ctx=ast.Store())], value=n.value), n))
+                        return ast.copy_location(ast.Name(id=n.target.id, ctx=ast.Load()), n)
+
+                    def visit_Lambda(self, n):  # noqa: N802
+                        return n
+
+                    visit_ListComp = visit_SetComp = visit_DictComp = visit_GeneratorExp = visit_IfExp = visit_BoolOp = visit_Lambda  # noqa: N815
+
+                new = W().visit(whole)
+                if W.ok and pre:
+                    for p_ in pre:
+                        ast.fix_missing_locations(p_)
+                    out += [*pre, new]
+                    continue
+            elif isinstance(s, ast.If):
+                s.body, s.orelse = hoist(s.body), hoist(s.orelse)
+            out.append(s)
+        return out
+
+    func.body = hoist(func.body)
+    return func
+
+
 def _paths(func: ast.FunctionDef, helpers) -> list[tuple[tuple, dict, ast.Call]] | None:
     """Enumerate the paths of a constructor's prelude: (flag assignment, environment, super().__init__ call)."""
     params = [p for p in param_names(func) if p != "self"]
@@ -566,10 +648,11 @@ def _select(e: ast.AST | None, flags: tuple):
 
 def check_families(ctx: Ctx) -> None:
     idx = ctx.index
-    helpers = dict(idx.module(LNU).functions)
+    # the re-parameterisation helpers and the constructors, in the spelling the term domain reads (a ** b, no walrus)
+    helpers = {k: _arith_normal(v, idx.module(LNU).imports) for k, v in idx.module(LNU).functions.items()}
     for fam in FAMILIES:
-        sp_init = idx.method(fam["sp_file"], fam["sp_cls"], "__init__")
-        ot_init = idx.method(fam["ot_file"], fam["ot_cls"], "__init__")
+        sp_init = _arith_normal(idx.method(fam["sp_file"], fam["sp_cls"], "__init__"), idx.module(fam["sp_file"]).imports)
+        ot_init = _arith_normal(idx.method(fam["ot_file"], fam["ot_cls"], "__init__"), idx.module(fam["ot_file"]).imports)
         csp = cname(fam["sp_file"], fam["sp_cls"], "__init__")
         cot = cname(fam["ot_file"], fam["ot_cls"], "__init__")
         sp_params = [p for p in param_names(sp_init) if p != "self"]
@@ -643,7 +726,7 @@ def check_families(ctx: Ctx) -> None:
     ctx.floor("19.4-signature", 14)
     ctx.floor("19.4-law", 8)
     # log-normal re-parameterisation against the analytical moments
-    f = ctx.index.func(LNU, "compute_mu_l_and_sigma_l")
+    f = _arith_normal(ctx.index.func(LNU, "compute_mu_l_and_sigma_l"), idx.module(LNU).imports)
     con = cname(LNU, None, "compute_mu_l_and_sigma_l")
     s = symexpr.sp
     m, sigma, loc = s.Symbol("m", positive=True), s.Symbol("sigma", positive=True), s.Symbol("location", real=True)
@@ -921,6 +1004,15 @@ def check_space(ctx: Ctx) -> None:
         # every argument with the locals it reads unfolded (``d = self.distributions[name]; d.mean`` is ``self.distributions[name].mean``)
         alts = {k: sorted({norm_stmt(a) for a in (unfolded(f, given[k]) or [given[k]])}) if given.get(k) is not None else [] for k in want}
         got = {k: (v[0] if len(v) == 1 else " | ".join(v)) for k, v in alts.items()}
+        # ``d = <joint>; self.distributions[name] = d; ... d.mean``: an attribute of the very value stored under the name
+        # (the one store, made on every path before the call) is the attribute of ``self.distributions[name]``
+        sts = [s_ for s_ in stmts_of(f) if isinstance(s_, ast.Assign) and len(s_.targets) == 1 and norm_stmt(s_.targets[0]) == "self.distributions[name]"]
+        if len(sts) == 1 and cfg.dominates(cfg.node_of(sts[0]), cfg.node_of(rules.enclosing_stmt(f, c))):
+            stored = {norm_stmt(a) for a in (unfolded(f, sts[0].value) or [sts[0].value])}
+            for k, w in want.items():
+                prefix, _, attr = w.rpartition(".")
+                if prefix == "self.distributions[name]" and alts[k] and set(alts[k]) == {f"{t_}.{attr}" for t_ in stored}:
+                    got[k] = w
         ok = got == want
     ctx.ob("19.6-design-variable", con, bool(ok), f"a random vector must enter the design space with the dimension, the support and the mean of its own distribution (got {got if av else None})", node=(av or [f])[0], stmt="add_variable(name, dimension, support, mean)")
     st = [s for s in stmts_of(f) if isinstance(s, ast.Assign) and norm_stmt(s.targets[0]) == "self.distributions[name]"]
@@ -930,8 +1022,8 @@ def check_space(ctx: Ctx) -> None:
     if ok:
         n_st, n_ap, n_rb, n_av = (cfg.node_of(rules.enclosing_stmt(f, x)) for x in (st[0], ap[0], rb[0], av[0]))
         ok = cfg.dominates(n_st, n_rb) and cfg.dominates(n_ap, n_rb) and cfg.dominates(n_st, n_av)
-        v = st[0].value
-        ok = ok and isinstance(v, ast.Call) and norm_stmt(_resolve(v.func, defs)).endswith("JOINT_DISTRIBUTION_CLASS") and dotted(v.args[0]) == "marginals"
+        v = _resolve(st[0].value, defs)
+        ok = ok and isinstance(v, ast.Call) and norm_stmt(_resolve(v.func, defs)).endswith("JOINT_DISTRIBUTION_CLASS") and bool(v.args) and dotted(v.args[0]) == "marginals"
     ctx.ob("19.6-design-variable", con, bool(ok), "the distribution of the vector is the joint distribution of its marginals, stored under its name and registered before the joint distribution is rebuilt", node=(st or [f])[0], stmt="distributions[name] stored, name appended, then rebuild")
     # one marginal per component with the component's own parameters
     loops = [s for s in stmts_of(f) if isinstance(s, ast.For) and any(isinstance(c, ast.Call) and dotted(c.func) == "marginals.append" for c in ast.walk(s))]
@@ -948,7 +1040,13 @@ def check_space(ctx: Ctx) -> None:
     dl = [s for s in stmts_of(f) if (isinstance(s, ast.Delete) and any(norm_stmt(t) == "self.distributions[name]" for t in s.targets)) or (isinstance(s, ast.Expr) and norm_stmt(s.value) == "self.distributions.pop(name)")]
     rm = [s for s in stmts_of(f) if isinstance(s, ast.Expr) and norm_stmt(s.value) == "self.uncertain_variables.remove(name)"]
     sc = rules.super_calls(f, "remove_variable")
-    ctx.ob("19.6-remove", con, len(dl) == 1 and len(rm) == 1 and len(sc) == 1 and dotted(sc[0].args[0]) == "name", "removing a random variable removes its distribution, its entry of uncertain_variables and the design variable of the same name", node=f, stmt="distribution, uncertain name and design variable removed together")
+    # the design variable is removed exactly once whatever the path (one call after the branches, or one per branch)
+    cfg = cfg_of(f)
+    sn = [cfg.node_of(rules.enclosing_stmt(f, c)) for c in sc if cfg.has(rules.enclosing_stmt(f, c))]
+    once = bool(sc) and len(sn) == len(sc) == len(set(sn)) and all(len(c.args) == 1 and not c.keywords and dotted(c.args[0]) == "name" for c in sc)
+    once = once and cfg.escape_path(cfg.entry, sn) is None and not any(a != b and cfg.path(a, b) is not None for a in sn for b in sn)
+    once = once and not any(isinstance(lp, (ast.For, ast.While)) and any(x is c for x in ast.walk(lp) for c in sc) for lp in stmts_of(f))
+    ctx.ob("19.6-remove", con, len(dl) == 1 and len(rm) == 1 and once, "removing a random variable removes its distribution, its entry of uncertain_variables and the design variable of the same name", node=f, stmt="distribution, uncertain name and design variable removed together")
     f = idx.method(PS, "ParameterSpace", "rename_variable")
     con = cname(PS, "ParameterSpace", "rename_variable")
     defs = _defs(f)
@@ -1055,6 +1153,111 @@ def _comparisons_with(mod, expr: ast.AST, name: str) -> list[str]:
     return out
 
 
+def _subst_names(e: ast.AST, bind: dict[str, ast.AST]) -> ast.AST:
+    """Deep copy of ``e`` with the names of ``bind`` (read) replaced by copies of their expressions."""
+    import copy
+
+    class B(ast.NodeTransformer):
+        def visit_Name(self, x):  # noqa: N802
+            return copy.deepcopy(bind[x.id]) if isinstance(x.ctx, ast.Load) and x.id in bind else x
+
+    return B().visit(copy.deepcopy(e))
+
+
+def _applied(func: ast.AST) -> ast.AST:
+    """Copy of ``func`` with the local function applications and the chained maps written out.
+
+    ``f = lambda p: B`` (``f`` bound once; the engine turns a single-return nested ``def`` into this form) makes
+    ``f(a)`` the expression ``B[p := a]``; ``[E(v) for v in [G(i) for i in X]]`` is ``[E(G(i)) for i in X]`` (element by
+    element the same values in the same order; the expressions concerned are pure).  A rewriting that could capture a
+    name (a free name of ``B`` or ``E`` bound somewhere else) is not made.
+    """
+    import copy
+
+    func = copy.deepcopy(func)
+    stores: dict[str, int] = {}
+    for n in ast.walk(func):
+        if isinstance(n, ast.Name) and isinstance(n.ctx, ast.Store):
+            stores[n.id] = stores.get(n.id, 0) + 1
+    lambdas = {}
+    for s_ in stmts_of(func):
+        if isinstance(s_, ast.Assign) and len(s_.targets) == 1 and isinstance(s_.targets[0], ast.Name) and isinstance(s_.value, ast.Lambda) and stores.get(s_.targets[0].id) == 1:
+            a = s_.value.args
+            params = [x.arg for x in a.args]
+            free = {x.id for x in ast.walk(s_.value.body) if isinstance(x, ast.Name)} - set(params)
+            if a.vararg or a.kwarg or a.kwonlyargs or a.posonlyargs or a.defaults or any(stores.get(v) for v in free):
+                continue
+            if any(isinstance(x, (ast.Lambda, ast.ListComp, ast.SetComp, ast.DictComp, ast.GeneratorExp, ast.NamedExpr)) for x in ast.walk(s_.value.body)):
+                continue
+            lambdas[s_.targets[0].id] = (params, s_.value.body)
+
+    class R(ast.NodeTransformer):
+        def visit_Call(self, n):  # noqa: N802
+            self.generic_visit(n)
+            if isinstance(n.func, ast.Name) and n.func.id in lambdas and not n.keywords and not any(isinstance(a, ast.Starred) for a in n.args):
+                params, body = lambdas[n.func.id]
+                if len(params) == len(n.args):
+                    new = _subst_names(body, dict(zip(params, n.args)))
+                    return ast.copy_location(new, n)
+            return n
+
+        def _fuse(self, n):
+            self.generic_visit(n)
+            if len(n.generators) != 1:
+                return n
+            g = n.generators[0]
+            inner = g.iter
+            if g.ifs or g.is_async or not isinstance(g.target, ast.Name) or not isinstance(inner, (ast.ListComp, ast.GeneratorExp)):
+                return n
+            bound = {x.id for c in inner.generators for x in ast.walk(c.target) if isinstance(x, ast.Name)}
+            reads = {x.id for x in ast.walk(n.elt) if isinstance(x, ast.Name)} - {g.target.id}
+            if bound & reads or g.target.id in bound or any(c.is_async for c in inner.generators):
+                return n
+            n.elt = _subst_names(n.elt, {g.target.id: inner.elt})
+            n.generators = inner.generators
+            return n
+
+        visit_ListComp = visit_GeneratorExp = _fuse  # noqa: N815
+
+    func = R().visit(func)
+    ast.fix_missing_locations(func)
+    return func
+
+
+def _under(func: ast.AST, facts: dict[str, bool]) -> ast.AST:
+    """``func`` specialised on ``facts`` (expression text -> value), the statements of the branches not taken removed."""
+    from gv.shapes import specialise
+
+    g = specialise(func, facts)
+
+    def prune(stmts):
+        out = []
+        for s_ in stmts:
+            if isinstance(s_, ast.If) and isinstance(s_.test, ast.Constant) and isinstance(s_.test.value, bool):
+                out += prune(s_.body if s_.test.value else s_.orelse)
+                continue
+            for field in ("body", "orelse", "finalbody"):
+                if isinstance(getattr(s_, field, None), list) and not isinstance(s_, (ast.FunctionDef, ast.AsyncFunctionDef, ast.ClassDef)):
+                    setattr(s_, field, prune(getattr(s_, field)))
+            out.append(s_)
+            if isinstance(s_, (ast.Return, ast.Raise)):
+                break
+        return out
+
+    g.body = prune(g.body) or [ast.Pass()]
+    return g
+
+
+def _arithmetic_context(root: ast.AST, node: ast.AST) -> ast.AST:
+    """The largest arithmetic expression (binary / unary operators) ``node`` is an operand of, ``node`` itself if none."""
+    from gv.astutil import parents_map
+
+    par = parents_map(root)
+    while isinstance(par.get(id(node)), (ast.BinOp, ast.UnaryOp)):
+        node = par[id(node)]
+    return node
+
+
 def check_statistics(ctx: Ctx) -> None:
     idx = ctx.index
     emod = idx.module(ES)
@@ -1113,17 +1316,29 @@ def check_statistics(ctx: Ctx) -> None:
         rel[value] = next(iter(found)) if len(found) == 1 else None
     ok = rel == {True: "ge", False: "le"} and not any(isinstance(n, ast.Name) and n.id == "greater" and isinstance(n.ctx, ast.Store) for n in ast.walk(fe))
     ctx.ob("19.7-tails", cname(ES, "EmpiricalStatistics", "compute_probability"), ok, f"the empirical probability is the frequency of X >= threshold when greater, of X <= threshold otherwise (found {rel})", node=(rets_e or [fe])[0], stmt="ge iff greater")
-    sel = [n for n in ast.walk(fp) if isinstance(n, ast.IfExp)]
-    ok = len(sel) == 1 and dotted(sel[0].test) == "greater" and norm_stmt(sel[0].body) == "1 - x" and norm_stmt(sel[0].orelse) == "x"
-    lam = [n for n in ast.walk(fp) if isinstance(n, ast.Lambda)]
-    ok = ok and len(lam) == 1 and [a.arg for a in lam[0].args.args] == ["x"]
-    if ok:
-        fname = next((t.id for s in stmts_of(fp) if isinstance(s, ast.Assign) and s.value is lam[0] for t in s.targets if isinstance(t, ast.Name)), None)
-        calls = [c for c in ast.walk(fp) if isinstance(c, ast.Call) and dotted(c.func) == fname]
-        ok = len(calls) == 1 and isinstance(calls[0].args[0], ast.Call) and last_attr(calls[0].args[0]) == "compute_cdf"
-    ctx.ob("19.7-tails", cname(PST, "ParametricStatistics", "compute_probability"), bool(ok), "the parametric probability is 1 - cdf(threshold) when greater, cdf(threshold) otherwise", node=(sel or [fp])[0], stmt="1 - cdf iff greater")
+    # the value kept for a component under each value of ``greater``: the cdf at the threshold as it is, or one minus
+    # it -- whatever carries the selection (conditional expression, local function, statement) and however the list is
+    # chained
+    fpn = _applied(fp)
+    sel = [n for n in ast.walk(fp) if isinstance(n, (ast.IfExp, ast.If)) and any(isinstance(x, ast.Name) and x.id == "greater" for x in ast.walk(n.test))]
+    shape = {}
+    for value in (True, False):
+        g_ = _under(fpn, {"greater": value})
+        cdfs = [c for c in ast.walk(g_) if isinstance(c, ast.Call) and last_attr(c) == "compute_cdf"]
+        if len(cdfs) != 1:
+            shape[value] = None
+            continue
+        e_ = _arithmetic_context(g_, cdfs[0])
+        if e_ is cdfs[0]:
+            shape[value] = "cdf"
+        elif isinstance(e_, ast.BinOp) and isinstance(e_.op, ast.Sub) and isinstance(e_.left, ast.Constant) and not isinstance(e_.left.value, bool) and e_.left.value == 1 and e_.right is cdfs[0]:
+            shape[value] = "1 - cdf"
+        else:
+            shape[value] = norm_stmt(e_, 60)
+    ok = shape == {True: "1 - cdf", False: "cdf"} and not any(isinstance(n, ast.Name) and n.id == "greater" and isinstance(n.ctx, ast.Store) for n in ast.walk(fp))
+    ctx.ob("19.7-tails", cname(PST, "ParametricStatistics", "compute_probability"), bool(ok), f"the parametric probability is 1 - cdf(threshold) when greater, cdf(threshold) otherwise (found {shape})", node=(sel or [fp])[0], stmt="1 - cdf iff greater")
     # component i of a variable: threshold i with the distribution of component i
-    comps = [n for n in ast.walk(fp) if isinstance(n, ast.ListComp) and any(isinstance(c, ast.Call) and last_attr(c) == "compute_cdf" for c in ast.walk(n.elt))]
+    comps = [n for n in ast.walk(fpn) if isinstance(n, (ast.ListComp, ast.GeneratorExp)) and any(isinstance(c, ast.Call) and last_attr(c) == "compute_cdf" for c in ast.walk(n.elt))]
     ok = len(comps) == 1 and len(comps[0].generators) == 1
     if ok:
         g = comps[0].generators[0]
@@ -1148,17 +1363,36 @@ def check_statistics(ctx: Ctx) -> None:
             while isinstance(a_, ast.Subscript):
                 a_ = a_.value
             thr = dotted(a_) if isinstance(a_, ast.Name) and a_.id not in [p_.arg for p_ in fp.args.args] else thr
-    stores_ = [s_ for s_ in stmts_of(fp) if isinstance(s_, ast.Assign) and isinstance(s_.targets[0], ast.Subscript) and thr is not None and dotted(s_.targets[0].value) == thr]
+    # the values stored per name, with the conditions under which each is: ``thr[name] = v`` under the tests of the
+    # enclosing statements, or the alternatives of the value of ``thr = {name: v if c else w for ...}``
+    def leaves(e, facts):
+        if isinstance(e, ast.IfExp):
+            lits = conj_literals(e.test)
+            yes, no = dict(facts), dict(facts)
+            for pol_, x_ in lits:
+                yes[norm_stmt(x_)] = pol_
+            if len(lits) == 1:
+                no[norm_stmt(lits[0][1])] = not lits[0][0]
+            return [*leaves(e.body, yes), *leaves(e.orelse, no)]
+        return [(e, facts)]
+
+    stores_ = []
+    for s_ in stmts_of(fp):
+        if not isinstance(s_, ast.Assign) or thr is None or len(s_.targets) != 1:
+            continue
+        if isinstance(s_.targets[0], ast.Subscript) and dotted(s_.targets[0].value) == thr:
+            stores_ += [(v_, f_, s_) for v_, f_ in leaves(s_.value, literal_facts(cfgp, cfgp.node_of(s_)))]
+        elif dotted(s_.targets[0]) == thr and isinstance(s_.value, ast.DictComp):
+            stores_ += [(v_, f_, s_) for v_, f_ in leaves(s_.value.value, literal_facts(cfgp, cfgp.node_of(s_)))]
     kept = False
-    for s_ in stores_:
-        facts = literal_facts(cfgp, cfgp.node_of(s_))
+    for v_s, facts, s_ in stores_:
         single = any(v_ and ("isinstance(" in k_ and ("float" in k_ or "Number" in k_ or "Real" in k_)) for k_, v_ in facts.items()) or any(v_ and k_.replace(" ", "") .startswith("len(") and k_.replace(" ", "").endswith("==1") for k_, v_ in facts.items())
-        replicated = isinstance(s_.value, ast.BinOp) and isinstance(s_.value.op, ast.Mult)
+        replicated = isinstance(v_s, ast.BinOp) and isinstance(v_s.op, ast.Mult)
         if replicated:
-            ctx.ob("19.7-tails", cname(PST, "ParametricStatistics", "compute_probability"), single, f"a threshold is replicated over the components (`{norm_stmt(s_.value, 50)}`) although it is not known to be single (conditions: {sorted(k_ for k_, v_ in facts.items() if v_)}): the thresholds of the other components are ignored", node=s_, stmt="replicated only if single")
+            ctx.ob("19.7-tails", cname(PST, "ParametricStatistics", "compute_probability"), single, f"a threshold is replicated over the components (`{norm_stmt(v_s, 50)}`) although it is not known to be single (conditions: {sorted(k_ for k_, v_ in facts.items() if v_)}): the thresholds of the other components are ignored", node=s_, stmt="replicated only if single")
         else:
             kept = kept or not single
-    ctx.ob("19.7-tails", cname(PST, "ParametricStatistics", "compute_probability"), kept or not stores_, "thresholds given per component must be used as given", node=(stores_ or [fp])[0], stmt="per-component thresholds kept")
+    ctx.ob("19.7-tails", cname(PST, "ParametricStatistics", "compute_probability"), kept or not stores_, "thresholds given per component must be used as given", node=(stores_[0][2] if stores_ else fp), stmt="per-component thresholds kept")
     for cls, rel, f in (("EmpiricalStatistics", ES, es.methods["compute_range"]), ("ParametricStatistics", PST, pst.methods["compute_range"])):
         subs = [n for n in walk_body(f) if isinstance(n, ast.BinOp) and isinstance(n.op, ast.Sub)]
         ok = len(subs) == 1
